@@ -199,6 +199,30 @@ CHECKS["C14"] = dict(
     technique="TLA+ spec (TrapzProps/AtmosCases over integers and exact rationals) model-checked with TLC; TLC-generated "
               "cases replayed into typhon.math.integrate_column and typhon.physics.atmosphere")
 
+CHECKS["C09"] = dict(
+    text="PARTIAL (rational clauses only). HumidityProps.tla defines the six humidity converters as Moebius maps over exact "
+         "rationals, RH<->VMR for an arbitrary saturation value, the IFS mixed-phase blend (ice below Tt-23, liquid above Tt, "
+         "quadratic blend between) and the moist lapse rate as a rational function; TLC model-checks mutual inverses, "
+         "two-step routes, monotonicity, 0->0, the blend's branch selection, bounds and continuity at both joints, and "
+         "0 < lapse <= g/cp with equality at ws = 0; the printed exact values are compared (1e-12) with the real functions on "
+         "scalars, arrays and 0-d arrays with Mw/Md, the thermodynamic constants and the Murphy-Koop functions replaced by "
+         "stand-ins (module-level names, canary-guarded); non-positive temperatures must raise ValueError.",
+    ref="DESIGN.md §5 C09, §6",
+    note="NOT decided (exp/log/tanh are outside TLA+): positivity, monotonicity and ordering of e_eq_water_mk / "
+         "e_eq_ice_mk themselves and their 1e-6 agreement at the triple point.",
+    technique="TLA+ spec (HumidityProps over exact rationals) model-checked with TLC; TLC-generated values replayed into "
+              "typhon.physics.atmosphere with stand-in constants")
+CHECKS["C08"] = dict(
+    text="PARTIAL (rational clauses only). EmUnitsProps.tla defines the frequency/wavelength/wavenumber converters, the "
+         "Rayleigh-Jeans law in frequency and wavelength form with its brightness-temperature inversion and the four "
+         "spectral-density converters (Jacobian f^2/c resp. c, grid reversal) over exact rationals with symbolic constants; "
+         "TLC model-checks mutual inverses, the Jacobian relation and that converted grids are increasing again; the exact "
+         "values are compared (1e-12) with the real functions under patched typhon.constants for 1-d, 2-d and 3-d spectra.",
+    ref="DESIGN.md §5 C08, §6",
+    note="NOT decided (exp/log/sin/sqrt are outside TLA+): everything about planck*, radiance2planckTb, snell, fresnel.",
+    technique="TLA+ spec (EmUnitsProps over exact rationals) model-checked with TLC; TLC-generated values replayed into "
+              "typhon.physics.em with stand-in constants")
+
 NOT_APPLICABLE = {
     "C07": "Every clause concerns floating-point accuracy of sin/cos/arctan2/sqrt compositions or convergence of a "
            "fixed-point iteration over a continuous domain; TLA+/TLC has no reals or transcendental functions and there "
